@@ -8,6 +8,7 @@ from .. import refmodel as rm
 from .. import spec as sp
 
 ID = 'C06'
+ANCHOR_FILES = ['solver/model.py']
 LEVEL = 'exploration'
 NEEDS_DEPS = True
 EVAL_COUNTER = 'assignments_presented'
